@@ -73,6 +73,10 @@ def run(ctx):
     _rename(res, sf, so, {"W1": "V2", "W3": "V1"})
     # ---- V1: cluster filters (shared machinery of C12) -----------------------------------------
     sf, so = len(res.findings), len(res.obligations)
+    # (an exit that hands back the knees argument itself returns a subsequence of it, whatever its condition: C12 / C13 judge when)
+    from .common import account_exits
+    for q_ in ("postprocessing.filter_clusters", "postprocessing.filter_clusters_corners"):
+        account_exits(rc.func(q_), lambda r: isinstance(r.value, ast.Name) and r.value.id == "knees")
     for mode in c12.MODES:
         c12._filter_clusters(rc, mode)
     c12._corners(rc)
